@@ -52,7 +52,10 @@ func run(rc *kernel.RunCtx) {
 				rc.Fail("panic", "container", fmt.Sprintf("panic: %v", v))
 			}
 		}()
-		switch rc.Tape.Choose(7) {
+		switch rc.Tape.Choose(8) {
+		case 7:
+			// A map set over floats, NaN included.
+			runSets(c, newMapFloatObj)
 		case 0, 1:
 			runSets(c, newMapObj)
 		case 2, 3:
@@ -168,6 +171,71 @@ func (o sortedFloatObj) equal(x setAPI) bool { return o.s.Equal(x.(sortedFloatOb
 func (o sortedFloatObj) kind() string        { return "SortedSliceSet" }
 func (o sortedFloatObj) sorted() bool        { return true }
 
+// mapFloatObj is MapSet[float64] behind the int-valued API.  Under == a NaN
+// is a value that is distinct from every value, itself included: every
+// Add(NaN) adds a new element that can be neither found nor deleted, only
+// cleared.  The model represents the i-th NaN of a set by the key nanBase+i.
+type mapFloatObj struct {
+	s *container.MapSet[float64]
+}
+
+const nanBase = 100
+
+func (o mapFloatObj) Add(v int)      { o.s.Add(floatUniverse[v]) }
+func (o mapFloatObj) Clear()         { o.s.Clear() }
+func (o mapFloatObj) Delete(v int)   { o.s.Delete(floatUniverse[v]) }
+func (o mapFloatObj) Has(v int) bool { return o.s.Has(floatUniverse[v]) }
+func (o mapFloatObj) Len() int       { return o.s.Len() }
+func (o mapFloatObj) Range(f func(v int) bool) {
+	nans := 0
+	o.s.Range(func(x float64) bool {
+		if math.IsNaN(x) {
+			nans++
+
+			return f(nanBase + nans - 1)
+		}
+
+		return f(floatIndex(x))
+	})
+}
+
+func (o mapFloatObj) Values() []int {
+	vals := o.s.Values()
+	if vals == nil {
+		return nil
+	}
+	out := make([]int, 0, len(vals))
+	nans := 0
+	for _, x := range vals {
+		if math.IsNaN(x) {
+			out = append(out, nanBase+nans)
+			nans++
+
+			continue
+		}
+		out = append(out, floatIndex(x))
+	}
+
+	return out
+}
+func (o mapFloatObj) isNil() bool         { return o.s == nil }
+func (o mapFloatObj) clone() setAPI       { return mapFloatObj{o.s.Clone()} }
+func (o mapFloatObj) equal(x setAPI) bool { return o.s.Equal(x.(mapFloatObj).s) }
+func (o mapFloatObj) kind() string        { return "MapSet" }
+func (o mapFloatObj) sorted() bool        { return false }
+
+func newMapFloatObj(vals []int, nilSet bool) setAPI {
+	if nilSet {
+		return mapFloatObj{nil}
+	}
+	fs := make([]float64, 0, len(vals))
+	for _, v := range vals {
+		fs = append(fs, floatUniverse[v])
+	}
+
+	return mapFloatObj{container.NewMapSet(fs...)}
+}
+
 func newSortedFloatObj(vals []int, nilSet bool) setAPI {
 	if nilSet {
 		return sortedFloatObj{nil}
@@ -220,6 +288,32 @@ const universe = 8
 func runSets(c *ctx, mk func(vals []int, nilSet bool) setAPI) {
 	tp, rc := c.rc.Tape, c.rc
 	_, floats := mk(nil, true).(sortedFloatObj)
+	_, mapFloats := mk(nil, true).(mapFloatObj)
+	// addToModel adds v to a model; in a float map set every NaN is a new
+	// element.
+	addToModel := func(m map[int]bool, v int) {
+		if mapFloats && v == 0 {
+			n := 0
+			for k := range m {
+				if k >= nanBase {
+					n++
+				}
+			}
+			m[nanBase+n] = true
+
+			return
+		}
+		m[v] = true
+	}
+	hasNaN := func(m map[int]bool) bool {
+		for k := range m {
+			if k >= nanBase {
+				return true
+			}
+		}
+
+		return false
+	}
 	var objs []*live
 	newLive := func(o setAPI, m map[int]bool) *live {
 		l := &live{obj: o, model: m, name: "s" + kernel.Itoa(len(objs))}
@@ -238,7 +332,7 @@ func runSets(c *ctx, mk func(vals []int, nilSet bool) setAPI) {
 	}
 	m0 := map[int]bool{}
 	for _, v := range init {
-		m0[v] = true
+		addToModel(m0, v)
 	}
 	o0 := newLive(mk(init, false), m0)
 	c.logf("%s: %s = New(%v)", o0.obj.kind(), o0.name, init)
@@ -262,7 +356,7 @@ func runSets(c *ctx, mk func(vals []int, nilSet bool) setAPI) {
 				continue // Add on a nil set is not documented to work; NaN is never added.
 			}
 			l.obj.Add(v)
-			l.model[v] = true
+			addToModel(l.model, v)
 			c.logf("%s.Add(%d)", l.name, v)
 		case 2:
 			if isNil && l.obj.sorted() {
@@ -299,6 +393,9 @@ func runSets(c *ctx, mk func(vals []int, nilSet bool) setAPI) {
 			}
 		case 5:
 			o := objs[tp.Choose(len(objs))]
+			if hasNaN(l.model) || hasNaN(o.model) {
+				continue // Equal on sets that hold NaN is not defined by ==.
+			}
 			got := l.obj.equal(o.obj)
 			want := isNil == o.obj.isNil() && (isNil || slices.Equal(modelValues(l.model), modelValues(o.model)))
 			c.logf("%s.Equal(%s) = %v", l.name, o.name, got)
